@@ -563,13 +563,36 @@ class DictT(Ty):
         if isinstance(v, VCell):
             v = v.content
         if isinstance(v, VMap):
-            return v.t
+            if v.t is None:
+                return self.empty()
+            if v.t.sort() == self.sort():
+                return v.t
+            c = coerce_map(v, self.kty, self.vty)
+            if c is not None:
+                return c
         raise EncodeError('Dict', v)
 
     def empty(self):
         return z3.K(self.kty.sort(), self._vs.none)
 
     def __repr__(self): return 'DictT(%r,%r)' % (self.kty, self.vty)
+
+
+def coerce_map(m, kty, vty):
+    """term for map m read as a dict kty -> vty, where one of the value types
+    is Any (universal) and the other Str/Int: values are re-tagged pointwise"""
+    if m.kty.sort() != kty.sort():
+        return None
+    src = opt_sort(m.vty.sort())
+    dst = opt_sort(vty.sort())
+    k = z3.Const('ck', kty.sort())
+    cell = z3.Select(m.t, k)
+    if isinstance(m.vty, _Any) and vty.sort() == z3.StringSort():
+        # down: universal -> str (A-types: the values are strings)
+        return z3.Lambda([k], z3.If(src.is_none(cell), dst.none, dst.some(_U.sval(src.val(cell)))))
+    if isinstance(vty, _Any) and m.vty.sort() == z3.StringSort():
+        return z3.Lambda([k], z3.If(src.is_none(cell), dst.none, dst.some(_U.vstr(src.val(cell)))))
+    return None
 
 
 class SetT(Ty):
